@@ -1,6 +1,7 @@
 import SaModel.Props.C09
 import SaModel.Lemmas.C09TracedTy
 import SaModel.Props.C06
+import SaModel.Trace.TracerPinned
 /-
 C09, the quantifier "for all schemas the crate can TRACE": every schema the tracer returns lies in `SchemaOK`
 (`validField && reprField`, Spec/SchemaOK.lean), so the JSON round-trip theorem `C09_schema_roundtrip` applies to it.
@@ -9,12 +10,16 @@ C09, the quantifier "for all schemas the crate can TRACE": every schema the trac
                                both codes; overwrites in the domain
   C09_from_type_json_roundtrip … survives `to_value` / `from_value` unchanged
   C09_from_samples_in_domain   every schema `from_samples` returns — ALL sample collections (any nesting, every serde
-                               constructor), every option but `allow_null_fields`, repaired code; overwrites in the domain
+                               constructor), ALL options (`allow_null_fields` included), repaired code; overwrites in the
+                               domain
   C09_from_samples_json_roundtrip
-  C09_unseen_position_outside  why `allow_null_fields` is excluded: a position no sample reached (the element of a list that
-                               was always empty) is traced as a NON-nullable `Null` field; `from_value` of the written form
-                               makes it nullable (`into_field`: `Null` ⇒ nullable), so that traced schema does not survive
-                               the JSON form unchanged (it comes back with `nullable = true` at that position; no error)
+  C09_unseen_position_outside_pinned
+                               the defect repaired by repo fix 01bb847 (finding C09-traced-unseen-null): before it, under
+                               `allow_null_fields`, a position no sample reached (the element of a list that was always empty)
+                               was traced as a NON-nullable `Null` field; `from_value` of the written form makes it nullable
+                               (`into_field`: `Null` ⇒ nullable), so that traced schema did not survive the JSON form
+                               unchanged (it came back with `nullable = true` at that position; no error)
+  C09_unseen_position_survives the same samples on the repaired code: `element` is traced nullable and the schema survives
 Hypothesis `OwOK o`: the fields given as overwrites are themselves in the domain (an overwrite replaces the traced field
 as given — `C08_overwrite` —; `TracingOptions::overwrite` validates it with `from_value`, which lets sorted maps and sparse
 unions through when it is given a marrow / arrow field object).
@@ -42,33 +47,44 @@ theorem C09_from_type_json_roundtrip (esc : Char → Bool) (c : Code) (o : Optio
   C09_schema_roundtrip esc fields (C09_from_type_in_domain c o how ty fields h)
 
 /-- **C09, traced schemas (`from_samples`).**  Every field of every schema `from_samples` returns lies in `SchemaOK`
-(options without `allow_null_fields`, see `C09_unseen_position_outside`). -/
-theorem C09_from_samples_in_domain (o : Options) (how : OverwritesInDomain o) (hn : o.allow_null_fields = false)
+(every option, `allow_null_fields` included: since repo fix 01bb847 every `Null` field is emitted nullable, see
+`C09_unseen_position_outside_pinned`). -/
+theorem C09_from_samples_in_domain (o : Options) (how : OverwritesInDomain o)
     (xs : List SVal) (fields : List Field) (h : fromSamples .fixed o xs = .ok fields) : ∀ f ∈ fields, SchemaOK f := by
   simp only [fromSamples] at h
   obtain ⟨t, ht, h⟩ := Lemmas.C06.bind_ok'.mp h
   have hw : Lemmas.C07.WF o t :=
     Lemmas.C07.absorbAll_wf o (Lemmas.C06.wf7_new o "$" "$") (Props.C06.fromSamplesTracer_absorbAll ht)
-  exact to_schema_schemaOK o how hn t hw fields h
+  exact to_schema_schemaOK o how t hw fields h
 
 theorem C09_from_samples_json_roundtrip (esc : Char → Bool) (o : Options) (how : OverwritesInDomain o)
-    (hn : o.allow_null_fields = false) (xs : List SVal) (fields : List Field) (h : fromSamples .fixed o xs = .ok fields) :
+    (xs : List SVal) (fields : List Field) (h : fromSamples .fixed o xs = .ok fields) :
     (printSchema esc fields >>= parseSchema) = .ok fields :=
-  C09_schema_roundtrip esc fields (C09_from_samples_in_domain o how hn xs fields h)
+  C09_schema_roundtrip esc fields (C09_from_samples_in_domain o how xs fields h)
 
 /-- the samples `[{a: []}]` -/
 def wEmptyList : List SVal := [.record "R" (.cons "a" 0 (.seq .nil) .nil)]
 
-/-- **`allow_null_fields` is needed.**  Under `allow_null_fields` the samples `[{a: []}]` trace `a` as
-`LargeList(element: Null, NOT nullable)` (the element position was never reached: `UnknownTracer::to_field` keeps its unset
-nullable flag, whereas a `Null` that WAS seen is always emitted nullable).  That schema is valid but outside `SchemaOK`, and
-its JSON form is read back — without an error — with `element` nullable. -/
-theorem C09_unseen_position_outside :
+/-- **The pinned defect (C09-traced-unseen-null, repaired by 01bb847).**  Before the repair, under `allow_null_fields`, the
+samples `[{a: []}]` traced `a` as `LargeList(element: Null, NOT nullable)` (the element position was never reached:
+`UnknownTracer::to_field` kept its unset nullable flag, whereas a `Null` that WAS seen is always emitted nullable).  That
+schema is valid but outside `SchemaOK`, and its JSON form is read back — without an error — with `element` nullable. -/
+theorem C09_unseen_position_outside_pinned :
     let traced : List Field := [.mk "a" (.largeList (.mk "element" .null false [])) false []]
     let back : List Field := [.mk "a" (.largeList (.mk "element" .null true [])) false []]
-    fromSamples .fixed { allow_null_fields := true } wEmptyList = .ok traced ∧
+    fromSamplesUnseenPinned { allow_null_fields := true } wEmptyList = .ok traced ∧
       traced.all validField = true ∧ traced.all schemaOK = false ∧
       (printSchema (fun _ => false) traced >>= parseSchema) = .ok back := by
+  decide +kernel
+
+/-- … and the repaired code on the same samples: `element` is traced nullable, the schema lies in the domain and survives
+its JSON form (an instance of `C09_from_samples_json_roundtrip` that NEEDS `allow_null_fields`: without the option these
+samples are refused) -/
+theorem C09_unseen_position_survives :
+    let traced : List Field := [.mk "a" (.largeList (.mk "element" .null true [])) false []]
+    fromSamples .fixed { allow_null_fields := true } wEmptyList = .ok traced ∧ traced.all schemaOK = true ∧
+      (printSchema (fun _ => false) traced >>= parseSchema) = .ok traced ∧
+      (fromSamples .fixed {} wEmptyList).isOk = false := by
   decide +kernel
 
 /-! non-vacuity: a type with every container kind (tuple, list, option, enum with all four variant kinds, map, strings as
@@ -105,7 +121,7 @@ example : ∃ fields, fromSamples .fixed { guess_dates := true } exSamples = .ok
     have hl : (match fromSamples .fixed { guess_dates := true } exSamples with | .ok l => l.length | .error _ => 0) = 3 := by
       decide +kernel
     rw [hf] at hl
-    exact ⟨fields, rfl, hl, C09_from_samples_json_roundtrip _ _ (overwritesInDomain_nil _ rfl) rfl exSamples fields hf⟩
+    exact ⟨fields, rfl, hl, C09_from_samples_json_roundtrip _ _ (overwritesInDomain_nil _ rfl) exSamples fields hf⟩
 
 /-- an overwrite in the domain (a time zone spelled "Utc") is traced as given and the schema survives -/
 example :
